@@ -570,8 +570,37 @@ impl OpClass {
 
 pub const TEXT_LENGTHS: &[usize] = &[0, 1, 6, 7, 8, 30, 31, 32, 33, 64, 126, 127, 128, 129, 200, 254, 255, 256, 300];
 
+/// tokens that text-processing code tends to treat specially (escapes, entities, format directives, separators)
+pub const TEXT_TOKENS: &[&str] = &[
+    "\\u0041", "\\u00e9", "\\uBEEF", "\\x41", "\\n", "\\t", "\\0", "\\\\", "\\", "%20", "%s", "%00", "&amp;", "&#65;", "\"", "'", "`", "${x}", "{}", "{0}", "<", ">", "/*", "*/", "//", "\n", "\r\n",
+    "\t", ";", ",", "=", "NaN", "null", "true", "0x41", "\u{feff}", "\u{a4}", "\u{ff}", "\u{80}", "..", "\\\"",
+];
+pub fn gen_token_text(r: &mut Rng, max_chars: usize) -> String {
+    let mut s = String::new();
+    let n = 1 + r.below(8);
+    for _ in 0..n {
+        match r.below(3) {
+            0 => s.push_str(TEXT_TOKENS[r.below(TEXT_TOKENS.len() as u64) as usize]),
+            1 => {
+                for _ in 0..r.below(6) {
+                    s.push(char::from_u32(0x30 + r.below(0x4B) as u32).unwrap());
+                }
+            }
+            _ => {
+                s.push_str(TEXT_TOKENS[r.below(TEXT_TOKENS.len() as u64) as usize]);
+                s.push_str(TEXT_TOKENS[r.below(TEXT_TOKENS.len() as u64) as usize]);
+            }
+        }
+    }
+    s.chars().take(max_chars).collect()
+}
+
 pub fn gen_text(arg: u64) -> String {
     let mut r = Rng::new(arg);
+    if r.below(5) == 0 {
+        let cap = [7usize, 31, 40, 127, 255][r.below(5) as usize];
+        return gen_token_text(&mut r, cap);
+    }
     let len = TEXT_LENGTHS[r.below(TEXT_LENGTHS.len() as u64) as usize];
     let style = r.below(7);
     let mut s = String::new();
